@@ -69,13 +69,16 @@ def cg(
         )
 
     # initial residual
-    residual = right_hand_side - operator(initial_value)[0] if initial_value is not None else right_hand_side.clone()
+    # (if no initial value is given, the iteration starts at the right-hand side, see above)
+    if initial_value is None:
+        initial_value = right_hand_side
+    residual = right_hand_side - operator(initial_value)[0]
 
     # initialize conjugate vector
     conjugate_vector = residual.clone()
 
     # assign starting value to the solution
-    solution = initial_value.clone() if initial_value is not None else right_hand_side.clone()
+    solution = initial_value.clone()
 
     # for the case where the residual is exactly zero
     if torch.vdot(residual.flatten(), residual.flatten()) == 0:
